@@ -212,6 +212,15 @@ def extra(chk, info, res):
 
 def run(chk):
     ac.run_actor_property(chk, MODULE, THEOREMS, monitor_pids=["C16"], extra=extra)
+    from checks import altcfg as _alt
+    _alt.binding(chk, ['heating'])
+    # the thermostat decides on the TemperatureReader's windows: refinement theorems + differential of the REAL BaseReader
+    from checks import reader_common
+    from vlib import lean as _lean
+    _lean.check_theorems(chk, "Poupool.Properties.Reader", ["Poupool.ReaderProps." + t for t in (
+        "window_spec", "window_bounded", "missing_reading_is_local", "missing_reading_is_local_general", "fresh_reading_is_seen",
+        "mean_within_bounds", "mean_none_iff_no_valid_reading", "zero_window_keeps_nothing")])
+    reader_common.correspondence(chk)
 
 
 def search(chk):
